@@ -349,11 +349,14 @@ def check_history(case, out):
             continue
         held = [(lab, o, grammar_snapshot(o)) for lab, o in grammars_of(obj)]
         kept = []
-        pristine = copy.deepcopy(obj) if any(o == "chart" for o, _ in hist) else None
+        try:
+            pristine = copy.deepcopy(obj) if any(o == "chart" for o, _ in hist) else None
+        except Exception:  # noqa: BLE001   (an object holding e.g. a generator cannot be cloned: its charts have no reference here)
+            pristine = None
         local = {}
         for step, q in enumerate(hist):
             got, raw = query(kind, obj, q)
-            if q[0] == "clear":
+            if q[0] == "clear" or (q[0] == "chart" and pristine is None):
                 continue
             out["n"] += 1
             want = fresh(q, pristine, local)
